@@ -397,6 +397,19 @@ def check(ctx):
               has_stmt('_fmt = _f.get(self.temporal_format_property)', hd.node)) and has_stmt("_f['format'] = _fmt", hd.node)
     run.check(a_prop and b_prop, 'TFP', hd.where, hd.qualname, 'same property on both sides',
               'the format written with and the format stamped come from different field properties')
+    # ... through every format class: a writer's __init__ hands the options it was given on to FileFormat.__init__ (which reads
+    # temporal_format_property), as **<its own options mapping>
+    for key_, cls_ in sorted(fmts.items()):
+        ini_ = cls_.methods.get('__init__')
+        if ini_ is None or cls_ is base:
+            continue
+        kwn = ini_.node.args.kwarg.arg if ini_.node.args.kwarg is not None else None
+        sup = [c_ for c_ in ast.walk(ini_.node) if isinstance(c_, ast.Call) and isinstance(c_.func, ast.Attribute) and c_.func.attr == '__init__'
+               and isinstance(c_.func.value, ast.Call) and u(c_.func.value.func) == 'super']
+        okf = kwn is not None and len(sup) == 1 and any(k.arg is None and pseudo(k.value) == kwn for k in sup[0].keywords)
+        run.check(okf, 'TFP', ini_.where, ini_.qualname, 'super().__init__(..., **%s)' % kwn,
+                  '%s does not hand the writer options on to FileFormat.__init__: temporal_format_property is lost, temporal values are '
+                  'written in the default format while the descriptor records the custom one' % cls_.name)
     # the property reaches the writer
     p1 = ctx.N(fd.methods['process_resource'])
     run.check(has_stmt("_kw['temporal_format_property'] = self.temporal_format_property", p1.node) or
